@@ -278,7 +278,7 @@ func init() {
 		ID:    "C06",
 		Title: "Function calls and closures behave as in Go regardless of frame recycling",
 		Explanation: "Decided: M1 every function literal that captures an *Env bound by an enclosing literal and is not invoked on the spot (616 today) is preceded by thatEnv.MarkUsedByClosure(), so the captured frame chain is never recycled; " +
-			"N1 every frame obtained with newEnv4Func is released with freeEnv4Func on the same variable in the same block, with no return in between and no slot access after release; Q1 every pointer &E.Ints[i] that leaves its expression is preceded by E.IntAddressTaken = true on the same frame; " +
+			"N2 every interpreted function body runs on a frame from newEnv4Func; N1 every frame obtained with newEnv4Func is released with freeEnv4Func on the same variable in the same block, with no return in between and no slot access after release; Q1 every pointer &E.Ints[i] that leaves its expression is preceded by E.IntAddressTaken = true on the same frame; " +
 			"FE1 freeEnv returns early for UsedByClosure frames and drops Ints of IntAddressTaken frames before pooling; O1/O2 Run.Pool, Run.PoolSize and Env.UsedByClosure are written only by the allocator / MarkUsedByClosure; " +
 			"U sibling uniformity and A3 depth of the fetched function variable and A2 accessor category over the call*ret*/func*ret* specialisations (argument i stored to slot i with the storage of its kind, result read from the result slot). " +
 			"Not decided: variadic packing, multiple results through reflect, recursion depth, that UsedByClosure is sufficient for every escape route (method values).",
@@ -286,11 +286,13 @@ func init() {
 		Rules: []func(*Ctx){func(c *Ctx) {
 			ruleMarkBeforeEscape(c, "fast", "M1-mark-before-escape")
 			ruleNewFreePairing(c, "fast", "N1-new-free")
+			ruleFuncBodyFrame(c, "fast", "N2-funcbody-frame")
 			ruleInteriorPointers(c, "fast", "Q1-interior-pointer")
 			ruleFreeEnvStructure(c)
 			poolOwnership(c)
 			ruleOwnership(c, "O2-usedbyclosure-owner", "fast", "Env", "UsedByClosure", []string{"fast.Env.MarkUsedByClosure", "fast.New", "fast.New#lit", "fast.CompGlobals.NewImport#lit"}, "only the marking walk sets the flag; top-level environments are created marked")
 			ruleUniformity(c, "fast", c06Files, "U-uniform")
+			ruleUniformity2D(c, "fast", c06Files, "U2-sibling-functions")
 			ruleDepth(c, "fast", c06Files, "A3-depth", "A4-storage")
 			ruleAccessorFiles(c, "fast", c06Files, "A2-accessor")
 			c.Floor("M1-mark-before-escape", 370)
@@ -305,6 +307,7 @@ func init() {
 			{Name: "intaddress-mark-before-walk", File: "fast/address.go", Old: "\t\t\t\tfor i := 3; i < upn; i++ {\n\t\t\t\t\tenv = env.Outer\n\t\t\t\t}\n\n\t\t\t\tenv.IntAddressTaken = true\n\t\t\t\treturn (*float64)", New: "\t\t\t\tenv.IntAddressTaken = true\n\t\t\t\tfor i := 3; i < upn; i++ {\n\t\t\t\t\tenv = env.Outer\n\t\t\t\t}\n\n\t\t\t\treturn (*float64)"},
 			{Name: "call0ret1-string-depth2", File: "fast/call0ret1.go", Old: "fun := env.Outer.Outer.Vals[funindex].Interface().(func() string)", New: "fun := env.Outer.Vals[funindex].Interface().(func() string)"},
 			{Name: "freeenv-ignores-closure-flag", File: "fast/compile.go", Old: "\tif env.UsedByClosure {\n\t\t// output.Debugf(\"freeEnv: used by closure, cannot reuse: %p %+v\", env, env)\n\t\treturn\n\t}", New: "\tif env.UsedByClosure && env.Outer == nil {\n\t\treturn\n\t}"},
+			{Name: "bool-result-read-from-arg-slot", File: "fast/func1ret1.go", Old: "ret0 = *(*bool)(unsafe.Pointer(&env.Ints[indexes[1]]))", New: "ret0 = *(*bool)(unsafe.Pointer(&env.Ints[indexes[0]]))", Nth: 9},
 			{Name: "result-read-after-free", File: "fast/func0ret1.go", Old: "ret0 = *(*int)(unsafe.Pointer(&env.Ints[indexes[0]]))\n\n\t\t\t\tenv.freeEnv4Func()", New: "env.freeEnv4Func()\n\t\t\t\tret0 = *(*int)(unsafe.Pointer(&env.Ints[indexes[0]]))\n"},
 		},
 	})
@@ -611,7 +614,7 @@ func init() {
 		ID:    "C33",
 		Title: "Goroutine identity and per-goroutine runtime state are never shared",
 		Explanation: "Decided: X3 in newEnv4Func the frame pool is reached only through the record selected by `if run.goid != goid { run = run.getRun4Goid(goid) }` with goid = gls.GoID() read in the same call, the new frame is tagged with that record and becomes its CurrEnv; getRun4Goid registers the record it creates; Comp.Go creates the goroutine's record with its own id, registers it and unregisters it with defer; " +
-			"X1 lock set: every access of IrGlobals.gls lies between lock.Lock() and lock.Unlock() of the same object; X2 SpinLock.Lock returns only after a successful CompareAndSwapInt32(s,0,1); O ownership: Run.goid is written only where a record is created, Run.Pool/PoolSize only by the allocator; U every interpreted function body obtains its frame with newEnv4Func (sibling uniformity of func*ret*.go). " +
+			"X1 lock set: every access of IrGlobals.gls lies between lock.Lock() and lock.Unlock() of the same object; X2 SpinLock.Lock returns only after a successful CompareAndSwapInt32(s,0,1); O ownership: Run.goid is written only where a record is created, Run.Pool/PoolSize only by the allocator; N2 every interpreted function body runs on a frame obtained with newEnv4Func (never NewEnv); U sibling uniformity of func*ret*.go. " +
 			"Not decided: uniqueness of GoID among live goroutines (assembly, trusted), schedules.",
 		Assumptions: []string{"gls.GoID returns a value unique among live goroutines", "sync/atomic semantics"},
 		Rules: []func(*Ctx){func(c *Ctx) {
@@ -620,6 +623,7 @@ func init() {
 			ruleSpinLock(c, "X2-spinlock")
 			ruleOwnership(c, "O-goid-owner", "fast", "Run", "goid", []string{"fast.Run.new#lit", "fast.newTopInterp#lit"}, "a record's goroutine id is fixed when the record is created")
 			poolOwnership(c)
+			ruleFuncBodyFrame(c, "fast", "N2-funcbody-frame")
 			ruleUniformity(c, "fast", []string{"func0ret0.go", "func0ret1.go", "func1ret0.go", "func1ret1.go", "func2ret0.go", "function.go"}, "U-uniform")
 			c.Floor("U-uniform", 700)
 			c.Floor("X1-lock-set", 3)
